@@ -48,10 +48,40 @@ def strobe_values(active_high: bool) -> List[Tuple[str, int]]:
 
 # ---- drivers -----------------------------------------------------------------------------
 
-def run_py(cfg, hist) -> List[Dict[str, Any]]:
+class _ViaHandler:
+    """The bus-facing PCE500KeyboardHandler around the matrix: strobe writes and key-input reads go through
+    handle_register_write/read (F0/F1/F2), presses through press_key/release_key."""
+
+    def __init__(self, cfg) -> None:
+        from pce500.keyboard_handler import PCE500KeyboardHandler
+        ah, pth, rth, dly, itv = cfg
+        self.h = PCE500KeyboardHandler(None, columns_active_high=ah)
+        self.h._matrix = KeyboardMatrix(columns_active_high=ah, press_threshold=pth, release_threshold=rth, repeat_delay=dly,
+                                        repeat_interval=itv)
+        self.h._last_kol, self.h._last_koh = self.h._matrix.kol, self.h._matrix.koh
+        self._key_states = self.h._matrix._key_states
+
+    kol = property(lambda self: self.h.handle_register_read(0xF0))
+    koh = property(lambda self: self.h.handle_register_read(0xF1))
+
+    def press_key(self, k): return self.h.press_key(k)
+    def release_key(self, k): return self.h.release_key(k)
+    def write_kol(self, v): return self.h.handle_register_write(0xF0, v)
+    def write_koh(self, v): return self.h.handle_register_write(0xF1, v)
+    def scan_tick(self): return self.h.scan_tick()
+    def read_kil(self): return self.h.handle_register_read(0xF2)
+    def inject_event(self, k, release=False): return self.h._matrix.inject_event(k, release=release)
+    def consume_pending_events(self): return self.h.consume_pending_events()
+    def pop_fifo(self): return self.h._matrix.pop_fifo()
+    def fifo_snapshot(self): return self.h.fifo_snapshot()
+
+
+def run_py(cfg, hist, handler: bool = False) -> List[Dict[str, Any]]:
     ah, pth, rth, dly, itv = cfg
     kb = KeyboardMatrix(columns_active_high=ah, press_threshold=pth, release_threshold=rth, repeat_delay=dly,
                         repeat_interval=itv)
+    if handler:
+        kb = _ViaHandler(cfg)
     out = []
     for ev in hist:
         k = ev[0]
@@ -77,7 +107,7 @@ def run_py(cfg, hist) -> List[Dict[str, Any]]:
             kb.consume_pending_events()
         elif k == "pop":
             kb.pop_fifo()
-        elif k == "snap":
+        elif k == "snap" and not handler:
             st = kb.snapshot_state()
             kb2 = KeyboardMatrix(columns_active_high=ah, press_threshold=pth, release_threshold=rth, repeat_delay=dly,
                                  repeat_interval=itv)
@@ -305,8 +335,8 @@ def _bfs(args):
                         last = hist
         else:
             for hist in cand:
-                obs = run_py(cfg, hist)
-                judge("python", cfg, hist, obs, vb, read_scans=False, cap=8)
+                obs = run_py(cfg, hist, handler=(impl == "python-handler"))
+                judge(impl, cfg, hist, obs, vb, read_scans=(impl == "python-handler"), cap=8)
                 trans += 1
                 kx = canon(obs[-1])
                 if kx not in seen:
@@ -335,6 +365,11 @@ def scripted(cfg) -> List[Tuple]:
     # chatter: re-press while held / release-press inside the release interval
     runs.append((both, ("press", "KEY_Q")) + (("tick",),) * (pth + 1) + (("press", "KEY_Q"),) + (("tick",),) * (pth + 1) +
                 (("release", "KEY_Q"), ("press", "KEY_Q")) + (("tick",),) * (pth + rth + 1) + (("release", "KEY_Q"),) + (("tick",),) * (rth + 1))
+    # strobe dropout while the key stays held: release event, then a fresh press with the full repeat delay
+    runs.append((both, ("press", "KEY_Q")) + (("tick",),) * (pth + 1) + (none,) + (("tick",),) * (rth + 1) + (both,) +
+                (("tick",),) * (pth + dly + 2 * max(itv, 1) + 2) + (("read",),))
+    runs.append((both, ("press", "KEY_Q")) + (("tick",),) * (pth + dly + 1) + (none,) + (("tick",), ("read",)) * (rth + 1) + (both,) +
+                (("tick",), ("read",)) * (pth + 2))
     # FIFO overflow by injection burst
     burst = tuple(("inject", k, r) for _ in range(3) for k in ("KEY_Q", "KEY_E") for r in (0, 1))
     runs.append((both,) + burst + (("tick",), ("read",)))
@@ -368,9 +403,10 @@ def _scripted(args):
                            {"impl": "rust", "cfg": list(cfg), "history": [list(e) for e in hist]})
     else:
         for hist in runs:
-            judge("python", cfg, hist, run_py(cfg, hist), vb, read_scans=False, cap=8)
+            judge(impl, cfg, hist, run_py(cfg, hist, handler=(impl == "python-handler")), vb, read_scans=(impl == "python-handler"), cap=8)
             n += len(hist)
-        n += _py_keyi(cfg, vb)
+        if impl == "python":
+            n += _py_keyi(cfg, vb)
     return {"n": n, "vb": vb}
 
 
@@ -401,9 +437,10 @@ def run(ctx) -> None:
     rs_cfgs = [(ah, p, 6, 24, 6) for ah in (True, False) for p in (1, 2)]
     depth_py = 7 if ctx.thorough else 5
     depth_rs = 6 if ctx.thorough else 4
-    jobs = [("python", c, depth_py, []) for c in py_cfgs] + [("rust", c, depth_rs, []) for c in rs_cfgs]
+    jobs = ([("python", c, depth_py, []) for c in py_cfgs] + [("rust", c, depth_rs, []) for c in rs_cfgs] +
+            [("python-handler", c, depth_py - 1, []) for c in py_cfgs[:2] + py_cfgs[3:5]])
     res = pmap(_bfs, jobs)
-    sres = pmap(_scripted, [("python", c) for c in py_cfgs + [(True, 6, 6, 24, 6)]] + [("rust", c) for c in rs_cfgs + [(True, 6, 6, 24, 6)]])
+    sres = pmap(_scripted, [("python", c) for c in py_cfgs + [(True, 6, 6, 24, 6)]] + [("python-handler", c) for c in py_cfgs + [(True, 6, 6, 24, 6)]] + [("rust", c) for c in rs_cfgs + [(True, 6, 6, 24, 6)]])
     for r in res + sres:
         ctx.merge_bucket(r["vb"])
     ctx.level = "model_checking"
@@ -440,7 +477,8 @@ def replay(ctx, w) -> Optional[str]:
                 return f"KEYI raised ISR={isr:#x}" if isr & 4 else None
             judge("rust", cfg, hist, rs_unpack(resp, hist), vb, read_scans=True, cap=8)
         else:
-            judge("python", cfg, hist, run_py(cfg, hist), vb, read_scans=False, cap=8)
+            hd = w["impl"] == "python-handler"
+            judge(w["impl"], cfg, hist, run_py(cfg, hist, handler=hd), vb, read_scans=hd, cap=8)
     for sig, (cnt, wl) in vb.d.items():
         return wl[0][0]
     return None
